@@ -199,6 +199,15 @@ Print Assumptions C16_ident_site.
 Example C16_nonvacuous_ident : Nat.leb 20 (List.length ident_sites) = true.
 Proof. vm_compute. reflexivity. Qed.
 
+(* finite floats (defaults under omit_default): their repr is digits, point, e and signs only (law
+   checked per run: float_text_ok (repr x) for sampled and special floats), and such text opens no
+   literal and no comment on the line *)
+Theorem C16_float_inert : forall t l prev acc,
+  forallb float_char t = true ->
+  exists prev', tok_line (LDef prev) acc (t ++ l) = tok_line (LDef prev') (rev (map TkChar t) ++ acc) l.
+Proof. exact float_inert. Qed.
+Print Assumptions C16_float_inert.
+
 (* the D6 injection seen from the line: the raw splice yields TWO string tokens and code between them *)
 Example C16_line_injection :
   literals (codes "value = d.get('x', MISSING) or f() or d.get('x', MISSING)")
